@@ -219,7 +219,7 @@ def meta(tier):
                             binary_operators=BIN_OPS, unary_operators=UN_OPS, operand_kinds=LEAF_KINDS,
                             symbolic="operand names, literal digits, exponent letter and sign, logical-literal case, string body, case of dotted operators"),
                 assumptions=["names differ from keywords/intrinsics", "expressions are rendered with single blanks or none around binary operators (both)"],
-                budget_s=300 if q else 2400, unit_budget_s=60 if q else 240, witness_every=10)
+                budget_s=300 if q else 1500, unit_budget_s=60 if q else 240, witness_every=10)
 
 
 def _dotted_right(e):
